@@ -20,7 +20,7 @@ LEVEL = "exploration"
 RULE = ("seeded cases: initial file of 0-10 lines (and a few files of 4096-10000 lines) (empty lines, ASCII, multi-byte UTF-8, long lines; no line breaks "
         "inside; with or without final newline; built index or a caller-supplied subset / permutation of line offsets), variant in the 4 mutable classes (record variants with a pass-through and a JSON record class), "
         "history of 0-40 operations (one in nine histories contains no edit at all): f[i]=x, del f[i], insert, append, extend, pop, remove, reverse, +=, mixed with "
-        "reads (len, f[i], slices, iteration, in/index/count) at in- and out-of-range positions, then save() to a "
+        "reads (len, f[i], slices, iteration, in/index/count) at in- and out-of-range positions and close()/open() of the same object followed by a read of the next line, then save() to a "
         "path or TextIO with ending in {\\n, \\r\\n, \\t, '', '<>'} and reopen with every variant. Oracle after every "
         "operation: full content == list model, exception class == list's, dirty flag rule, source SHA-256+mtime "
         "unchanged. distinct_nontrivial = distinct (variant, operation-kind sequence, final content) cases with >=2 "
@@ -42,7 +42,7 @@ VARIANTS = ["MutableRandomLineAccessFile", "MutableMemoryMappedRandomLineAccessF
 ALPHABET = ["", "a", "b", "line", "hello world", "  padded  ", "\t", "žluťoučký kůň", "日本語", "😀", "x" * 30, "0", "a,b", "a"]
 ENDINGS = ["\n", "\n", "\r\n", "\t", "", "<>"]
 OPS = ["set", "set", "del", "insert", "insert", "append", "extend", "pop", "pop_i", "remove", "reverse", "iadd",
-       "get", "slice", "list", "len", "contains", "index", "count"]
+       "get", "slice", "list", "len", "contains", "index", "count", "reopen_next"]
 _SCRATCH = None
 _CLS = {}
 
@@ -281,6 +281,21 @@ def _run(case, res):
                     sl = slice(vals[a % 8], vals[c % 8], [None, 1, 2, -1][b % 4])
                     desc = f"f[{sl}]"
                     got, want = outcome(lambda: obj[sl]), outcome(lambda: model[sl])
+                elif op == "reopen_next":
+                    # the same object is closed and opened again (a second `with` session); the first read afterwards is the
+                    # line that follows the last one read before closing
+                    if n == 0:
+                        continue
+                    i = a % n
+                    first = outcome(lambda: obj[i])
+                    obj.close()
+                    g0 = outcome(lambda: obj[0])
+                    if g0 != ("exc", "RuntimeError"):
+                        fail("closed-file", f"read on the closed file -> {_short(g0)}, documented RuntimeError")
+                    obj.open()
+                    j = (i + 1) % n
+                    desc = f"f[{i}], close(), open(), f[{j}]"
+                    got, want = (first, outcome(lambda: obj[j])), (("ok", model[i]), ("ok", model[j]))
                 elif op == "list":
                     got, want = outcome(lambda: list(obj)), ("ok", list(model))
                 elif op == "len":
